@@ -8,8 +8,13 @@
      for every schedule;
    * two single-document deletes exclude each other (a thread at the acquire is not
      enabled while the name is held): `single_document_deletes_exclude`.
-  Not proved: coverage of the publish / remove by the held document name as a
-  static theorem, and section-level linearizability of {store, retrieve, delete(f)}.
+   * the single-document class {store_metadata(p, f, ·), delete_metadata(p, f)} is
+     linearizable, for any number of threads and every schedule
+     (`single_document_class_serialises`, `…_linearizable`): all work of these
+     calls lies between the claim and the release of the document name
+     (`Proofs/Serial.lean`: serialisation of bracketed threads).
+  Not proved: readers (retrieve_metadata) running beside a writer of the same
+  document, and mixes with `delete_object`.
   Refuted: with `delete_metadata(p)` (all formats) in the menu the full statement is
   false — the directory is listed before any name is claimed (K3); witness by
   `decide`, replayed on the real threads on every run.
@@ -19,6 +24,7 @@
 import HSModel.Props.C09
 import HSModel.Proofs.ConcLemmas
 import HSModel.Proofs.LockLemmas
+import HSModel.Proofs.SerialSpec
 namespace HS.C12
 
 /-- a metadata document changes value only by a whole-file step -/
@@ -78,5 +84,73 @@ def d7 : Conf × Nat := runSchedule 1000
   (sched "0011") 0
 
 theorem single_document_deletes_exclude : d7.2 = 3 ∧ d7.1.anyEnabled = true := by decide
+
+/-! ### the single-document class -/
+
+/-- **The single-document class serialises.** Any number of threads, each a
+    `store_metadata` or a `delete_metadata(pid, format)` call whose document name
+    is `doc` (or a call rejected for its arguments); any start world in which
+    `doc` is not claimed — any directory, any other identifiers held, any fault
+    plan —; any schedule of the interleaving semantics, any step budget. When all
+    calls have returned, the world (directory, lock lists, fault plan, effect
+    log) is exactly the one reached by running the calls whole, one after the
+    other, in some order, and each call returned what it returns in that
+    sequential run: the final document is the last-ordered version or absent,
+    and no call fails with an error the sequential run does not produce. -/
+theorem single_document_class_serialises (cfg : Config) (o : Oracle) (doc : Str) (calls : List Call)
+    (hc : ∀ x ∈ calls, OnDoc cfg o doc x) (w0 : World) (h0 : doc ∉ w0.lk.doc) (fuel : Nat) (sched : List Nat) :
+    let progs := calls.map (Call.tprog cfg o)
+    let fin := (runSchedule fuel { w := w0, ts := progs.map .fresh } sched 0).1
+    fin.allFinished = true →
+    ∃ order : List Nat, order.Nodup ∧ (∀ j, j ∈ order ↔ j < calls.length) ∧
+      fin.w = (seqRun progs order w0).1 ∧
+      ∀ (j : Nat) (t : TState), fin.ts[j]? = some t → ∃ v, t = TState.finished v ∧ (j, v) ∈ (seqRun progs order w0).2 := by
+  intro progs fin hall
+  have hb : ∀ p ∈ progs, p.Bracketed .doc doc := by
+    intro p hp
+    obtain ⟨x, hx, rfl⟩ := List.mem_map.mp hp
+    exact onDoc_bracketed cfg o doc x (hc x hx)
+  obtain ⟨order, h1, h2, h3, h4⟩ := serial_schedule .doc doc progs w0 hb (List.count_eq_zero.mpr h0) fuel sched hall
+  exact ⟨order, h1, fun j => by rw [h2 j]; simp [progs], h3, h4⟩
+
+/-- … and is linearizable with respect to the specification: started on a
+    directory that simulates `a` (in particular after any history from the empty
+    store), with nothing claimed and no fault plan, there is an order of the
+    calls in which `Abs.step`, run call after call from `a`, returns exactly what
+    the threads returned, and the final directory simulates its final state. -/
+theorem single_document_class_linearizable (cfg : Config) (o : Oracle) (doc : Str) (calls : List Call)
+    (hc : ∀ x ∈ calls, OnDoc cfg o doc x) (st : Store) (log : List Eff) (a : Abs) (hs : Sim o st a)
+    (ho : GoodOracle o) (fuel : Nat) (sched : List Nat) :
+    let fin := (runSchedule fuel { w := calm st log, ts := (calls.map (Call.tprog cfg o)).map .fresh } sched 0).1
+    fin.allFinished = true →
+    ∃ order : List Nat, order.Nodup ∧ (∀ j, j ∈ order ↔ j < calls.length) ∧
+      Sim o fin.w.st (specHist cfg o (pick calls order) a).2 ∧ fin.w.lk = {} ∧
+      ∀ (j : Nat) (t : TState), fin.ts[j]? = some t →
+        ∃ v, t = TState.finished v ∧ (j, v) ∈ order.zip (specHist cfg o (pick calls order) a).1 :=
+  linearizable_of_bracketed cfg o .doc doc calls
+    (fun x hx => onDoc_bracketed cfg o doc x (hc x hx))
+    (fun x hx => by
+      have := hc x hx
+      cases x <;> first | trivial | exact this.elim)
+    st log a hs ho fuel sched
+
+/-! the hypotheses are satisfiable: three calls on one document, an interleaved
+    schedule after which all have returned (a test of the statement on literals) -/
+def callsS : List Call :=
+  [.storeMetadata p1 (.ok 1) .none, .deleteMetadata p1 (.str "ns".toList), .storeMetadata p1 (.ok 2) .none]
+def serialDemo : Conf × Nat := runSchedule 1000
+  { w := { st := Store.empty }, ts := (callsS.map (Call.tprog cfgW oW)).map .fresh } (sched "1200000022222111") 0
+example : serialDemo.1.allFinished = true ∧ serialDemo.2 = 16 := by decide
+example : ∀ x ∈ callsS, OnDoc cfgW oW "hp1ns".toList x := by
+  have hp : checkString p1 = .ok "p1".toList := by decide
+  have hf1 : checkArgFormatId cfgW.ns .none = .ok "ns".toList := by decide
+  have hf2 : checkArgFormatId cfgW.ns (.str "ns".toList) = .ok "ns".toList := by decide
+  intro x hx
+  simp only [callsS, List.mem_cons, List.not_mem_nil, or_false] at hx
+  rcases hx with rfl | rfl | rfl
+  · intro p f h1 h2; rw [hp] at h1; rw [hf1] at h2; cases h1; cases h2; rfl
+  · refine ⟨(by intro h; cases h), ?_⟩
+    intro p f h1 h2; rw [hp] at h1; rw [hf2] at h2; cases h1; cases h2; rfl
+  · intro p f h1 h2; rw [hp] at h1; rw [hf1] at h2; cases h1; cases h2; rfl
 
 end HS.C12
